@@ -15,6 +15,9 @@ UNITS = {
         dict(kind="verus", name="c08_needs", template="specs/c04_needs.vrs",
              under_contract=["frag_dedup_full", "frag_dedup_partial"], vacuity=["frag_dedup_full", "frag_dedup_partial"],
              assumptions=["same template as unit c04_needs: when a request over versions / seqs is cut down to what was not requested yet, what remains is exactly (requested) minus (already requested for that origin actor) — nothing of another actor is subtracted"]),
+        dict(kind="structural", name="c08_row_bindings", check="row_bindings", file="crates/klukai-types/src/change.rs", fn="row_to_change",
+             files=["crates/klukai-agent/src/api/peer/mod.rs", "crates/klukai-types/src/broadcast.rs", "crates/klukai-agent/src/agent/util.rs"],
+             trusted=["same obligation as c05_row_bindings: the ranges a server tiles for a buffered version are the stored rows themselves (plain start_seq, end_seq columns, no aggregate), read from their own columns; rusqlite returns columns in SELECT order"]),
         dict(kind="structural", name="c08_chunker_ranges", check="chunker_ranges", file="crates/klukai-agent/src/api/peer/mod.rs", fn="handle_need",
              trusted=["syntactic comparison of the SQL parameter bindings with the chunker's (start, end) arguments (vx/structural.py chunker_ranges)"]),
         dict(kind="verus", name="c08_send", template="specs/c05_send.vrs",
@@ -85,6 +88,9 @@ UNITS["C02"] = [
 ]
 
 UNITS["C15"] = [
+    dict(kind="structural", name="c15_tables_loop", check="loop_runs_to_end", file="crates/klukai-types/src/schema.rs", fn="apply_schema",
+         header=r"\.intersection\(", obligation="every-table-in-both-schemas-reaches-the-index-comparison",
+         trusted=["the fragments of c15_schema decide each rule; this decides that one pass of the loop body applies all of them to a table"]),
     dict(kind="structural", name="c15_ddl", check="schema_ddl", file="crates/klukai-types/src/schema.rs", fn="apply_schema",
          trusted=["syntactic reading of the statement texts and of the guard/branch pair (vx/structural.py schema_ddl)"]),
     dict(kind="structural", name="c15_reload", check="schema_reload", file="crates/klukai-types/src/schema.rs", fn="init_schema",
@@ -387,6 +393,22 @@ NOTES = {
     "C02": "bookkeeping algebra of one actor: PartialVersion completeness; gap computation; contains predicates",
     "C08": "per-call tiling contract of the real ChunkedChanges::next + verified driver for the whole-run statement; chunk_range: see kani unit",
 }
+
+# ---- cross-registration: a unit decides a fact that several properties rest on; it is run (and reported) under each of them, so that a
+# change to the shared code is reported under every property it breaks (rounds 3-4: five seeded changes were only caught under "the other" property)
+def _also(src_prop, src_name, dst_prop, dst_name, why):
+    u = dict([x for x in UNITS[src_prop] if x["name"] == src_name][0])
+    u["name"] = dst_name
+    u["assumptions"] = list(u.get("assumptions", [])) + ["same unit as %s (registered under %s as well): %s" % (src_name, dst_prop, why)]
+    UNITS[dst_prop].append(u)
+
+_also("C02", "c02_partial", "C03", "c03_partial", "a buffered version counts as completely received iff its seqs cover 0..=last_seq")
+_also("C02", "c02_booked", "C03", "c03_booked", "what insert_partial records is the union of the chunks received")
+_also("C10", "c10_apply_trigger", "C03", "c03_apply_trigger", "a completely received version is handed to the applier (eventually applied)")
+_also("C10", "c10_apply_trigger_boot", "C03", "c03_apply_trigger_boot", "fully buffered versions found at start-up are handed to the applier")
+_also("C02", "c02_commit_order", "C10", "c10_commit_order", "a changeset counts as held only after its bookkeeping was persisted")
+_also("C08", "c08_chunker", "C05", "c05_chunker", "send_change_chunks is proved against the chunker's contract; the contract itself is proved here")
+_also("C08", "c08_chunker", "C07", "c07_chunker", "a local transaction is announced through the same chunker: ranges tile 0..=last_seq")
 
 # ---- composition guard: one structural unit per property that has fragment-based Verus units (see vx/structural.py check_exits_covered)
 import os as _os, re as _re
